@@ -4,6 +4,7 @@ import props_filter as pf
 import props_quant as pq
 import props_dist as pd
 import props_search as psr
+import props_lsh as pl
 
 NOTE_STORE = ('theorems are about the tile model coq/Model/{Store,Coll}.v; the model is tied to the code by running '
               'the extracted model and the implementation on the same histories and comparing every step '
@@ -54,4 +55,12 @@ def C03(tier, seed, replay):
     return psr.check(tier, seed, replay)
 
 
-REGISTRY = {'C03': C03, 'C06': C06, 'C12': C12, 'C13': C13, 'C14': C14, 'C15': C15, 'C07': C07, 'C01': C01, 'C02': C02, 'C09': C09, 'C16': C16}
+def C04(tier, seed, replay):
+    return pl.check('C04', tier, seed, replay)
+
+
+def C05(tier, seed, replay):
+    return pl.check('C05', tier, seed, replay)
+
+
+REGISTRY = {'C04': C04, 'C05': C05, 'C03': C03, 'C06': C06, 'C12': C12, 'C13': C13, 'C14': C14, 'C15': C15, 'C07': C07, 'C01': C01, 'C02': C02, 'C09': C09, 'C16': C16}
